@@ -457,13 +457,18 @@ def _value_line_tokenizer(func):
 def whitespace_split_tokenizer(v):
     # type: (str) -> Iterable[Deb822Token]
     assert "\n" not in v
+    found_word = False
     for match in _RE_WHITESPACE_SEPARATED_WORD_LIST.finditer(v):
+        found_word = True
         space_before, word, space_after = match.groups()
         if space_before:
             yield Deb822SpaceSeparatorToken(sys.intern(space_before))
         yield Deb822ValueToken(word)
         if space_after:
             yield Deb822SpaceSeparatorToken(sys.intern(space_after))
+    if not found_word and v:
+        # A line consisting solely of whitespace (e.g. "Field: \n value")
+        yield Deb822SpaceSeparatorToken(sys.intern(v))
 
 
 @_value_line_tokenizer
